@@ -35,6 +35,9 @@ PRE = {
     'small': adds(A + B),  # only small objects: their bytes are still in the user-space buffer when the pack is closed
     'plain': adds(A + M[:1]) + [pack('no'), CLEAN],
     'zipped': adds(A + M[:1]) + [pack('yes'), CLEAN],
+    # packs with holes (objects deleted after packing): a repack really moves the surviving objects
+    'plain-holes': adds(A + M[:1]) + [pack('no'), CLEAN, {'op': 'delete', 'cs': [A[1], A[2]], 'absent': []}],
+    'zipped-holes': adds(A + M[:1]) + [pack('yes'), CLEAN, {'op': 'delete', 'cs': [A[0], A[4]], 'absent': []}],
     # some packed+cleaned, some packed and still loose, some loose only
     'mixed': adds(A) + [pack('no'), CLEAN] + adds(B) + [pack('yes')] + adds(M[:1] + [L]),
 }
@@ -118,6 +121,8 @@ def variants(tier: str, default_fsync_only: bool = False):  # noqa: C901
         add(f'repack:{mode}', {'op': 'repack', 'mode': mode}, ['mixed', 'zipped'], repack=True, quick=mode in ('keep', 'yes'))
         add(f'repack:{mode}:multipack', {'op': 'repack', 'mode': mode}, ['mixed', 'plain'], target=500, repack=True,
             quick=mode in ('no',))
+    add('repack:keep:holes', {'op': 'repack', 'mode': 'keep'}, ['plain-holes', 'zipped-holes'], repack=True)
+    add('repack:auto:holes', {'op': 'repack', 'mode': 'auto'}, ['zipped-holes', 'plain-holes'], repack=True, quick=False)
     add('repack_pack:keep:after-delete', [{'op': 'delete', 'cs': [A[1]], 'absent': []}, {'op': 'repack_pack', 'mode': 'keep', 'pack': 0}],
         ['plain', 'mixed'], repack=True, quick=False)
     return out
